@@ -71,3 +71,7 @@ Definition name_truthy (o : option (list Z)) : bool := match o with Some (_ :: _
 
 (* reading a variable that is only bound by a loop body: NameError when the loop never ran *)
 Definition bound_z (v : option Z) : res Z := match v with Some x => OK x | None => Err NameError end.
+
+(* range(a, b) *)
+Fixpoint zrange_fuel (n : nat) (a : Z) : list Z := match n with O => [] | S n' => a :: zrange_fuel n' (a + 1) end.
+Definition zrange (a b : Z) : list Z := zrange_fuel (Z.to_nat (b - a)) a.
